@@ -448,6 +448,10 @@ class Domain:
             last_size - origin_last_coordinate,
         )
 
+        # the state of maximal index is not always one of the two ends of a line parallel to the last axis
+        # (e.g. Rosenberg-Strong pairing in dimension 3): keep track of it as it closes the enumeration of the states
+        max_inside_index = -1
+
         for ks in lazy_indices_product(all_sizes):
             ks_shifted = tuple(ki - origin_last_coordinate for ki in ks)
             outside_states = []
@@ -471,11 +475,18 @@ class Domain:
                 )
                 frontier_state_indices.appendleft(frontier_left_index)
                 frontier_state_indices.appendleft(frontier_right_index)
+                max_inside_index = max(
+                    max_inside_index,
+                    max(x for x, y in zip(all_states, outside_states) if not y),
+                )
             else:
                 axis_state_index = all_states[origin_last_coordinate]
                 frontier_state_indices.appendleft(
                     axis_state_index
                 )  # keep the state on the (last) axis
+
+        if max_inside_index > max(frontier_state_indices):
+            frontier_state_indices.appendleft(max_inside_index)
 
         return frontier_state_indices
 
